@@ -398,6 +398,17 @@ def run_sentences(ctx, cases):
                 rep.violation({'entry': 'NMEASentenceFactory.produce', 'component': 'tag_block', 'kind': 'wrong-value'},
                               f'tag block {tb!r} before {s!r}: sentence.tag_block = '
                               f'{None if tbo is None else tbo.raw!r}', rp)
+        # white space in front of the LINE (the factory strips the line first): the padded line with the tag block must fare
+        # like the padded line without it
+        for pad in (b' ', b'\t ', b'\r\n'):
+            p0, p1 = produce(pad + s), produce(pad + line)
+            if p0[0] != p1[0] or (p0[0] == 'raise' and p0[1] != p1[1]) or \
+                    (p0[0] == 'ok' and sentence_attrs(p0[1]) != sentence_attrs(p1[1])):
+                rep.violation({'entry': 'NMEASentenceFactory.produce', 'component': 'outcome', 'kind': 'differs-with-tag-block/padded-line'},
+                              f'{pad + s!r}: {p0[:2] if p0[0] == "raise" else "parsed"}; with the tag block {tb!r} behind the same '
+                              f'padding: {p1[:2] if p1[0] == "raise" else "parsed (other attributes)" if p0[0] == "ok" else "parsed"}',
+                              dict(rp, pad=pad.hex()))
+                break
         # the same through the decoding API, lenient and strict (error_if_checksum_invalid=True): what decode() makes of the
         # line must not depend on the tag block in front of it, whatever the tag block's own checksum says
         for strict in (False, True):
